@@ -293,6 +293,11 @@ def gen_random(ctx, n):
         else:
             t1, t2 = V.gen_value(rng, 3, 4), V.gen_value(rng, 3, 4)
             ctx.count("gen:independent")
+        if rng.random() < 0.12:
+            # multi-line strings (difflib-rendered leaves), incl. pairs that differ only in their line terminators
+            t1, t2, done = V.plant_multiline(rng, t1, t2)
+            if done:
+                ctx.count("gen:multiline_string_pair")
         out.append((t1, t2))
     return out
 
